@@ -11,7 +11,8 @@ Definition mapped_k (p : kpc) : nat :=
   | _ => 0
   end.
 Definition pending (p : kpc) : nat := match p with KMainAppended _ j => j | KFlushAppended k => k | _ => 0 end.
-Definition post_read (p : kpc) : bool := match p with KOff | KStop | KExiting | KDone => true | _ => false end.
+Definition post_read (p : kpc) : bool :=
+  match p with KOff | KStop | KExiting | KDone | KFlushMapped 0 | KDrainMapped 0 => true | _ => false end.
 Definition post_main (p : kpc) : bool :=
   match p with
   | KFlushMapping | KFlushMapped _ | KFlushAppended _ | KFlushAgain | KStop | KErrUnmap _ | KDrainAgain | KDrainMapping
